@@ -304,13 +304,18 @@ pub fn make_replay(prop: &str, seed: u64, found: &Found, thorough: bool) -> Opti
         trace: tctx.trace.clone().unwrap_or_default(),
         scenario: s,
     };
-    let dir = "/verif/replays";
-    let _ = std::fs::create_dir_all(dir);
+    let dir = format!("{}/replays", out_dir());
+    let _ = std::fs::create_dir_all(&dir);
     let cls: String = rf.class.chars().map(|c| if c.is_ascii_alphanumeric() { c } else { '_' }).take(60).collect();
     let path = format!("{dir}/{prop}-{seed}-{}-{cls}.json", found.run);
     std::fs::write(&path, serde_json::to_string_pretty(&rf).ok()?).ok()?;
     ctx.cleanup();
     Some((path, rf))
+}
+
+/// Where evidence and replay files go (default /verif; HPOSIM_OUT redirects scratch experiments)
+pub fn out_dir() -> String {
+    std::env::var("HPOSIM_OUT").unwrap_or_else(|_| "/verif".to_string())
 }
 
 pub fn counters_by_prefix(c: &Counters, prefix: &str) -> BTreeMap<String, u64> {
